@@ -18,7 +18,7 @@ use std::sync::Arc;
 pub struct AnonymousFunction {
     pub params: Params,
     body: Arc<[InstructionWithStr]>,
-    return_type: Type,
+    pub(crate) return_type: Type,
 }
 
 impl AnonymousFunction {
